@@ -24,7 +24,7 @@ NA = {
 }
 
 PENDING = {k: "check not built yet in this revision (planned: see DESIGN.md §4)" for k in
-           ("C01", "C05", "C14", "C15", "C16", "C18", "C19", "C20")}
+           ("C01", "C05", "C16", "C18", "C20")}
 
 CHECKS = [
     dict(pid="C17", level="proof",
@@ -32,6 +32,21 @@ CHECKS = [
          ref="DESIGN.md §4 C17",
          note="Trusted: rustc's MIR dump, the mirsmt encoder (validated each run in concrete mode against the native build), the solvers, and two meta-arguments (invariant induction; additive accumulator loop => exact sum mod 2^W). Windows longer than 65536 bytes and roll on an empty window are outside the claim.",
          technique="SMT over MIR (symbolic execution of rustc MIR, integer encoding with explicit wrap); inductive invariant step; loop acceleration"),
+    dict(pid="C19", level="model_checking",
+         text="glob_match's real loop (from MIR, unrolled with an unwinding assertion) is shown equal to the recursive wildcard definition for every pattern/text up to the length bound over {a,b,*,?,.,/}; needs_transfer is decided at full 64-bit width; build_plan (from MIR, with BTreeMap/Vec/sort modelled over an ordered path universe and is_excluded as an arbitrary predicate) is shown equal to the set definition of transfer/skipped/delete for every presence/metadata/flag assignment. The solver covers all inputs inside the bound at once, which unit tests sample.",
+         ref="DESIGN.md §4 C19",
+         note="Bounded: quick |p|<=4,|t|<=5 and 3 paths; thorough |p|<=6,|t|<=7 and 5 paths. NOT covered: is_excluded's std::path/str dispatch (only its boolean result is used, as an arbitrary predicate) and parse_remote_meta_output (text parsing is out of reach). Trusted: MIR dump, encoder and its std models (BTreeMap iteration in key order, Vec::push, sort = sorted permutation), validated each run against the native build.",
+         technique="SMT over MIR (bounded loop unrolling with unwinding assertions; std collection models); counterexamples replayed natively"),
+    dict(pid="C15", level="model_checking",
+         text="At the level of the plan a run executes: every name that matches an exclude pattern under the stated wildcard semantics is recognised by the real glob_match (bounded pattern/text lengths), and for every exclusion predicate build_plan never puts an excluded path in transfer or delete, produces no delete set without --delete, and deletes only paths absent from the source. Solver-decided over all inputs in the bound.",
+         ref="DESIGN.md §4 C15",
+         note="The dry-run clause and the effect on the destination tree are file-system observations and are outside the claim; is_excluded's per-component/whole-path dispatch is read, not decided. Same bounds and trusted base as C19.",
+         technique="SMT over MIR (bounded); planner-level obligations; native replay"),
+    dict(pid="C14", level="model_checking",
+         text="Thin, planner-level claim: for every pair of metadata maps in which each non-excluded source path has equal (size, whole-second mtime) at the destination, build_plan transfers nothing and (without --delete, or when the destination has no extra paths) deletes nothing; a path is in the transfer list only if it is absent or differs; needs_transfer is exact at full width.",
+         ref="DESIGN.md §4 C14",
+         note="ASSUMED, not decided: that after a successful run the destination metadata equals the source's (mtime round trip through SystemTime / touch / find is kernel+coreutils behaviour). Bounds and trusted base as C19.",
+         technique="SMT over MIR (bounded); planner-level obligations"),
 ]
 
 
